@@ -83,6 +83,9 @@ def spaces(tier, seed):
                                                       "base": [True]},
                       note="month / weekday / relative words of the language that contain a character with a canonical decomposition, written in another "
                            "normalization form than the vocabulary's (decomposed accents as produced by macOS file names, PDF extractors, scrapers)"))
+    sp.append(Product("apostrophe-like-marks-in-running-text", {"lang": LANGS, "mark": ["'", "\u2019", "\u00b4", "`", "\u02b9", "\u2032"], "tpl": range(4), "sel": ["lang", "auto"],
+                                                                "adl": [True], "base": [True]},
+                      note="an elided word written with an apostrophe look-alike (it´s, l`an ...) next to a date, with a detached separator after it"))
     sp.append(Product("glued-punctuation", {"lang": LANGS, "i": range(6), "j": range(6), "glue": [",", "'", ".", "-", ":", "/", ";", ")(", "\u2019", ",,"],
                                             "sel": ["lang"], "adl": [True], "base": [True]},
                       note="two tokens joined by a punctuation mark without spaces"))
@@ -102,6 +105,12 @@ def text_of(sub, c):
     if sub == "chained-reference-dates":
         t2 = c["t2"].replace("{month}", core8[0]).replace("{weekday}", core8[1] if len(core8) > 1 else "12").replace("{rel}", rel[0] if rel else "12")
         return c["t1"] + c["join"] + t2
+    if sub == "apostrophe-like-marks-in-running-text":
+        j = joiner or " "
+        m = c["mark"]
+        d = "5" + j + core8[0] + j + "2015"
+        return ["It" + m + "s" + j + d + j + "," + j + fill[0], "l" + m + fill[0] + j + d + j + ";" + j + "12",
+                "it" + m + "s" + j + (rel[0] if rel else "12") + j + ",", d + j + "," + j + "c" + m + "est" + j + core8[1 if len(core8) > 1 else 0]][c["tpl"]]
     if sub == "unicode-normalization-forms":
         import unicodedata
         info = vocab.locale_info(c["lang"])
